@@ -55,6 +55,7 @@ type Val struct {
 	Fn  *ssa.Function
 	Fr  []Val // closure bindings
 	Str bool  // spec-level: value is a string id
+	Dyn types.Type // interface values: static type of the boxed operand when known
 }
 
 func IntV(s string, t types.Type) Val  { return Val{K: KInt, S: s, T: t} }
